@@ -110,10 +110,15 @@ def gen(g, count, reps):
                 idx = r.randrange(len(log))
                 d0, ents0, ns0 = log[idx]
                 ents0 = list(ents0)
+                defined = dict(book)
                 for f in r.sample(pool, min(len(pool), 2)):
                     for v in sorted({f.upper(), f.capitalize(), f.swapcase(), f.lower()} - {f}):
                         if g.wf_name(v):
                             ents0.append((v, Qty(b'1', Fraction(1))))
+                            if f in defined and v not in defined and r.random() < 0.7:
+                                # ... and different recipes when the book defines both spellings
+                                book = book + [(v, list(defined[f]))]
+                                defined[v] = defined[f]
                 log = log[:idx] + [(d0, ents0, ns0)] + log[idx + 1:]
         files = base_files(g, book, log)
         n = r.choice([None, None, spec.max_height(spec.book_map(book)), spec.max_height(spec.book_map(book)) + 1])
